@@ -207,6 +207,7 @@ def dependency_closure(prop, units):
     """Function-level call-graph closure: the functions tagged with `prop` plus every contracted function they
     (transitively) call, by source name. Returns {unit name: set(out fn names)} for the non-assumed definitions."""
     defs = {}     # out name -> list of (unit, meta, body)
+    boundary = set(u['name'] for u in units if u.get('boundary'))
     for u in units:
         tmpl = os.path.join(VERIF, 'contracts', u['template'])
         try:
@@ -240,6 +241,10 @@ def dependency_closure(prop, units):
                 if m.group('pre') == '.' and not is_method:
                     continue
                 if m.group('pre') is None and is_method:
+                    continue
+                # a unit marked "boundary" proves a function that every other unit sees through a declared contract (Offset::resolve:
+                # Fixed -> itself, Local -> arbitrary); its functions belong to a check only for the properties they are tagged with
+                if un2 in boundary and prop not in meta2.get('props', []):
                     continue
                 if (un2, out2) not in seen:
                     seen.add((un2, out2))
@@ -730,6 +735,9 @@ def main(argv):
         # two engines: the Verus unit `fmt` (text of the zone symbols, sign/padding glue, default-width rule) and the Kani rows
         import kani_engine
         rc_v = check_property('C11', a.tier, seed, a.keep)
+        if os.environ.get('VERIF_C11_VERUS_ONLY'):
+            # self-test / cross-matrix runs: only the Verus part (the rows take 2-3 minutes per run); never used by the registered commands
+            return rc_v
         evp = os.path.join(VERIF, 'evidence', 'C11.json')
         ev_v = json.load(open(evp)) if os.path.exists(evp) else None
         rc_k = kani_engine.run('C11', a.tier, seed)
